@@ -139,6 +139,7 @@ type Machine struct {
 	stopped  bool
 	symDecisions int
 	cut      bool
+	skipVis  bool // execute the pending visible instruction as a step of its own (atomic op, racy load/store)
 	overlay  map[*Object]Value
 	symHeap  map[*Object]Value
 	reads    map[string]bool
@@ -576,10 +577,11 @@ func (m *Machine) step() {
 		unsupported("fell off block in %s", fr.fn)
 	}
 	instr := fr.blk.Instrs[fr.idx]
-	if m.procMode && m.bmcHooks != nil && (m.cut || m.bmcHooks.visible(m, fr, instr)) {
+	if m.procMode && m.bmcHooks != nil && (m.cut || (!m.skipVis && m.bmcHooks.visible(m, fr, instr))) {
 		m.stopped = true
 		return
 	}
+	m.skipVis = false
 	fr.idx++
 	switch in := instr.(type) {
 	case *ssa.DebugRef:
